@@ -109,12 +109,15 @@ static void format_eval_error(arglist *al, char prefix, const char *suffix) {
     *message++ = prefix;
   n += al->AE->SnprintF(message, MAX_ERROR_MESSAGE_SIZE,
       "can't evaluate %s%s(", al->funcinfo, suffix);
-  for (i = 0; i < al->n - 1; ++i) {
+  /* SnprintF returns the length the text would have had:
+     stop once the buffer is full (the message is truncated). */
+  for (i = 0; i < al->n - 1 && n < MAX_ERROR_MESSAGE_SIZE; ++i) {
     n += al->AE->SnprintF(message + n, MAX_ERROR_MESSAGE_SIZE - n,
         "%g, ", al->ra[i]);
   }
-  al->AE->SnprintF(message + n, MAX_ERROR_MESSAGE_SIZE - n,
-      "%g)", al->ra[al->n - 1]);
+  if (n < MAX_ERROR_MESSAGE_SIZE)
+    al->AE->SnprintF(message + n, MAX_ERROR_MESSAGE_SIZE - n,
+        "%g)", al->ra[al->n - 1]);
 }
 
 /* Reports a function evaluation error. */
